@@ -360,6 +360,15 @@ def _run_job(args):
     job, tier, seed, pid, nsim = args
     mode, kind, flavours, wa, b = job
     tabs = extract_tables(kind, flavours[0], wa)
+    gone = [m for m in documented_memo_methods()[kind] if m not in tabs["declared"]]
+    if gone:
+        # the code no longer memoises a method that CacheTables.tla documents as memoised: the model (whose call graph
+        # refers to that entry) cannot be instantiated with the code's tables.  Not a verdict: the repeated-call family
+        # and the trajectory counters decide on the real objects whether user functions are evaluated again.
+        return {"wall": 0.0, "cfg": {"mode": mode, "kind": kind, "with_aux": wa, **b, "states": 0, "behaviours": 0, "declared": tabs["declared"]},
+                "states": 0, "transitions": 0, "histories": 0, "actions": 0, "calls": 0, "viol": [],
+                "drift": [f"{kind}: the code does not memoise {gone} although CacheTables.tla documents it; StateCache.tla not run for this class"],
+                "cex": None, "sample": None}
     name = f"sc_{pid.lower()}_{tier}_{mode}_{kind}_{'aux' if wa else 'plain'}_{b['nobj']}{b['nsys']}{b['maxsteps']}"
     res = run_model(name, kind, tabs, entry=ENTRY[kind], props=True, workers=1,
                     simulate=nsim if mode == "sim" else None, seed=seed, **b)
@@ -410,6 +419,87 @@ def _run_job(args):
         "drift": sorted(set(results["drift"]))[:20], "cex": cex_info,
         "sample": {"kind": kind, "with_aux": wa, "history": _short(hists[len(hists) // 2])} if hists else None,
     }
+
+
+def documented_memo_methods():
+    """kind -> methods that CacheTables.tla documents as memoised (memo = TRUE), parsed from the module text."""
+    import re
+
+    text = (tlc.SPECS / "CacheTables.tla").read_text()
+    blocks = {m.group(1): m.group(2) for m in re.finditer(r"^(\w+)Table ==\n(.*?)(?=^\w+ ==|^=====)", text, re.S | re.M)}
+    out = {}
+    for kind in zoo.SYSTEM_KINDS:
+        names = []
+        for blk in (blocks.get("Base", ""), blocks.get(kind, "")):
+            names += [m.group(1) for m in re.finditer(r"(\w+)\s*\|->\s*M\([^\n]*?,\s*TRUE\)", blk)]
+        out[kind] = [n for n in dict.fromkeys(names) if n in TABLE_METHODS[kind]]
+    return out
+
+
+def repeat_call_family():
+    """C18 on the real classes, independent of which methods the code declares as memoised: every method that
+    CacheTables.tla documents as memoised is called on a state, then again on the same state and on a copy; the second
+    and third call must evaluate no user model function -- counting the calls of the user functions AND the applications
+    of the callables they return (matrix-Hessian / vector-Jacobian / matrix-tressian products).
+    Returns (violations, number of calls)."""
+    from collections import Counter
+
+    from mici.states import ChainState
+
+    viol, ncalls = [], 0
+    doc = documented_memo_methods()
+    for kind in zoo.SYSTEM_KINDS:
+        if not doc.get(kind):
+            raise MachineryError(f"no documented memoised methods parsed for {kind}")
+        for wa in (False, True):
+            for fl in (zoo.RIEMANNIAN_FLAVOURS if kind == "Riemannian" else ("-",)):
+                model = zoo.Model(3, with_aux=wa)
+                applied = Counter()
+
+                def wrap(name, model=model, applied=applied):
+                    orig = getattr(model, name)
+
+                    def counting(q):
+                        r = orig(q)
+
+                        def cnt(c):
+                            def call(*a):
+                                applied[name] += 1
+                                return c(*a)
+                            return call
+                        return (cnt(r[0]),) + tuple(r[1:]) if isinstance(r, tuple) else cnt(r)
+                    setattr(model, name, counting)
+
+                for name in [a for a in dir(model) if a == "mhp_constr" or a == "mtp_neg_log_dens" or a.startswith("vjp_metric_")]:
+                    wrap(name)
+                system = zoo.make_system(kind, model, flavour=fl)
+                pos = zoo.on_manifold_point(model, 3) if "Constrained" in kind else np.array([0.3, -0.2, 0.5])
+                st0 = ChainState(pos=np.array(pos), mom=None, dir=1)
+                mom = system.sample_momentum(st0, np.random.default_rng(2))
+                state = ChainState(pos=np.array(pos), mom=np.array(mom), dir=1)
+                methods = [m for m in doc[kind] if hasattr(system, m)]
+                for m in methods:
+                    getattr(system, m)(state)
+                for m in methods:
+                    for target, how in ((state, "the same state"), (state.copy(), "a copy of the state")):
+                        before = sum(model.calls.values()) + sum(applied.values())
+                        cb, ab = dict(model.calls), dict(applied)
+                        getattr(system, m)(target)
+                        ncalls += 1
+                        if sum(model.calls.values()) + sum(applied.values()) != before:
+                            again = sorted([k for k in model.calls if model.calls[k] > cb.get(k, 0)]
+                                           + [k + " (callable applied)" for k in applied if applied[k] > ab.get(k, 0)])
+                            viol.append(("C18", f"C18:{kind}:{m}:recomputed-on-repeated-call",
+                                         f"{kind}{'' if fl == '-' else '[' + fl + ']'} ({'tuple' if wa else 'plain'} return convention): "
+                                         f"calling {m} again on {how} evaluated user code again: {again}",
+                                         {"engine": "statecache-repeat", "kind": kind, "method": m}))
+                            break
+    seen, out = set(), []
+    for v in viol:
+        if v[1] not in seen:
+            seen.add(v[1])
+            out.append(v)
+    return out, ncalls
 
 
 def alias_family():
@@ -594,6 +684,11 @@ def check_all(tier, seed, pid):
     total["viol"] += [v for v in av if v[0] == pid]
     total["calls"] += an
     total["alias_family_calls"] = an
+    if pid == "C18":
+        rv, rn = repeat_call_family()
+        total["viol"] += rv
+        total["calls"] += rn
+        total["repeat_call_family_calls"] = rn
     for o in outs:
         for k in ("states", "transitions", "histories", "actions", "calls"):
             total[k] += o[k]
